@@ -246,6 +246,42 @@ def rel_worse(case, ti, e, q, what, g):
     return None, c2
 
 
+def ladder_case(material, mode, s, period):
+    """one hot material point held at a constant uniaxial (hoop) stress s for one day, no strain cycling"""
+    tmax = dc.common_tmax() - 1.0
+    times = np.array([0.0, 0.5 * period, period])
+    stress = np.zeros((6, 3, 1, 1))
+    stress[1] = s
+    return dict(material=material, mode=mode, period=float(period), days=1, regime="ladder",
+                tubes=[dict(times=times, stress=stress, strain=np.zeros((6, 3, 1, 1)), temp=np.full((3, 1, 1), tmax))])
+
+
+def rupture_decreasing_between(m, s_lo, s_hi):
+    """independent reading of the material file: is the Larson-Miller polynomial strictly decreasing in
+    log10(stress) over [s_lo, s_hi] (sampled)?  Then rupture time decreases with stress there."""
+    for L in np.linspace(math.log10(s_lo), math.log10(s_hi), 9):
+        d = sum(b * k * L ** (k - 1) for b, k in zip(m["a"], m["n"]) if k != 0)
+        if not d < 0.0:
+            return False
+    return True
+
+
+def rel_ladder(material, mode, period, k):
+    """almost unloaded hot standby: stress 256 * 2^-(k+1) against 256 * 2^-k MPa (down to 1e-4 MPa)"""
+    m = dc.parse_material(material)
+    s_hi, s_lo = 256.0 * 2.0 ** -k, 256.0 * 2.0 ** -(k + 1)
+    if not rupture_decreasing_between(m, s_lo, s_hi):
+        return "skip", None
+    lo, hi = ladder_case(material, mode, s_lo, period), ladder_case(material, mode, s_hi, period)
+    a, b = run_life(lo), run_life(hi)
+    if is_raise(a) or is_raise(b):
+        return None, hi
+    if not not_larger(lo, b, a):
+        return ("life %r at a constant hot stress of %g MPa rises to %r at %g MPa (%s, %s, day of %g h)"
+                % (a, s_lo, b, s_hi, material, mode, period)), hi
+    return None, hi
+
+
 def rel_tube(case, tube):
     a = run_life(case)
     c2 = add_tube(case, tube)
@@ -331,6 +367,18 @@ def run(ctx):
             Q = random_rotation(rng)
             what, c2 = rel_rot(base, Q)
             note("rot-curved", what, dict(kind="rot", case=dc.case_to_json(base), Q=Q.tolist()), (i, r), not isinstance(a, str))
+    # light-load ladder: raising a small stress (well below 1 MPa included) never lengthens the life
+    nlad = 0
+    for i, mat in enumerate(mats):
+        for k in (range(0, 20, 3) if ctx.quick() else range(20)):
+            mode = ("lump", "last")[(i + k) % 2]
+            period = rng.choice([24.0, 1.0e4, 1.0e7])
+            what, c2 = rel_ladder(mat, mode, period, k)
+            if what == "skip":
+                continue
+            nlad += 1
+            note("worse-ladder", what, dict(kind="ladder", material=mat, mode=mode, period=period, k=k), (mat, k), True)
+    ctx.extra["ladder_pairs"] = nlad
     for i in range(nbase):
         mat = mats[i % len(mats)]
         mode = ("lump", "last")[(i // len(mats)) % 2]
@@ -480,6 +528,9 @@ def eval_replay(r):
     k = r["kind"]
     if k == "scale":
         return rel_scale(r["material"], np.array(r["Df"]), np.array(r["Dc"]), r["l"])[0]
+    if k == "ladder":
+        what = rel_ladder(r["material"], r["mode"], r["period"], r["k"])[0]
+        return None if what == "skip" else what
     case = dc.case_from_json(r["case"])
     if k == "rot":
         return rel_rot(case, np.array(r["Q"]))[0]
